@@ -276,7 +276,48 @@ func checkWaitAndShutdown(c *Ctx, p *Prog, R *BusRoles) {
 		}
 	}
 	c.Check(okSignal, "C06.R4", "Shutdown/completion-signalled-after-Wait", p.Pos(sd.Pos()), "the completion channel is signalled only after Wait() returned", "the completion channel can be signalled before Wait() has returned (or no waiter goroutine exists): Shutdown can return nil while async handlers are still running")
-	_ = doneChan
+	// the completion channel belongs to this call: made here (or by a helper this call runs),
+	// never taken from the bus — a channel shared between calls is still closed from an
+	// earlier waiter when Shutdown is retried after a timeout
+	{
+		ixd := newIPIndex(p)
+		var fresh func(v ssa.Value, d int) bool
+		fresh = func(v ssa.Value, d int) bool {
+			v = stripConv(v)
+			if d > 3 {
+				return false
+			}
+			switch x := v.(type) {
+			case *ssa.MakeChan:
+				return true
+			case *ssa.UnOp:
+				if al, ok := x.X.(*ssa.Alloc); ok && x.Op == token.MUL {
+					n, all := 0, true
+					for _, ref := range *al.Referrers() {
+						if st, ok := ref.(*ssa.Store); ok && st.Addr == al {
+							n++
+							all = all && fresh(st.Val, d+1)
+						}
+					}
+					return n > 0 && all
+				}
+				return false
+			case *ssa.Call:
+				rs := ixd.Returned(x, 0)
+				if len(rs) == 0 {
+					return false
+				}
+				for _, r := range rs {
+					if !fresh(r, d+1) {
+						return false
+					}
+				}
+				return true
+			}
+			return false
+		}
+		c.Check(fresh(doneChan, 0), "C06.R4", "Shutdown/completion-channel-made-by-this-call", p.Pos(sel.Pos()), "the channel Shutdown waits on is created by this call", "the completion channel Shutdown waits on is not created by this call (it is shared state of the bus): after a Shutdown that timed out, a retry finds it already closed by the earlier waiter and returns nil — and closes the store — while handlers of later publishes are still running")
+	}
 	// (b) Close() of the store only on the completion arm of Shutdown's own select
 	n := 0
 	ix := newIPIndex(p)
